@@ -132,6 +132,7 @@ class Result:
         self.known_hits = []
         self.cmds = []
         self.misuse = 0
+        self.conform = [0, 0, 0]
 
     def merge(self, o):
         self.viol += o.viol
@@ -145,6 +146,7 @@ class Result:
         self.known_hits += o.known_hits
         self.cmds += o.cmds
         self.misuse += o.misuse
+        self.conform = [a + b for a, b in zip(self.conform, getattr(o, "conform", [0, 0, 0]))]
 
 
 # ------------------------------------------------------------------------------------------ core engine
@@ -272,6 +274,114 @@ def engine_core(prop, tier, seed, work):
     return res
 
 
+# ------------------------------------------------------------------------------- LoopCore model engines
+MODEL_CFGS = {
+    "C01": ["reuse", "edge"], "C02": ["edge", "post"], "C05": ["timers"], "C06": ["reuse", "post"],
+    "C07": ["edge", "timers"], "C08": ["reuse", "idle"], "C09": ["post"], "C13": ["idle"],
+    "C14": ["life"], "C15": ["faults", "life"], "C16": ["edge", "reuse"],
+}
+
+
+def engine_model(prop, tier, seed, work):
+    """exhaustive TLC run of LoopCore on the bounded configurations that exercise this property"""
+    res = Result()
+    for name in MODEL_CFGS[prop]:
+        cfg = "mc/%s_%s.cfg" % ("q" if tier == "quick" else "t", name)
+        budget = 240 if tier == "quick" else 1500
+        workers = 8 if tier == "quick" else 16
+        try:
+            r = tlc_model("MCLoopCore", cfg, work, workers=workers, timeout=budget)
+        except ToolError as e:
+            if tier == "thorough" and "timeout" in str(e):
+                res.notes.append("TLC on %s stopped by the time budget (%ds): bounded by time, not exhaustive" % (cfg, budget))
+                m = re.findall(r"(\d[\d,]*) states generated .*? (\d[\d,]*) distinct states found", str(e))
+                if m:
+                    res.transitions += int(m[-1][0].replace(",", ""))
+                    res.states += int(m[-1][1].replace(",", ""))
+                continue
+            raise
+        res.states += r["distinct"]
+        res.transitions += r["generated"]
+        res.cmds.append("tlc -config %s MCLoopCore.tla" % cfg)
+        if not r["ok"]:
+            bad = [v for v in r["violated"]]
+            cex = "%s/replays/%s_model_%s.txt" % (ROOT, prop, name)
+            os.makedirs(ROOT + "/replays", exist_ok=True)
+            open(cex, "w").write(r["out"][-200000:])
+            if ("Inv_" + prop) in bad or any(not b.startswith("Inv_C") for b in bad):
+                res.viol.append({"prop": prop, "scn": "model:" + cfg, "clauses": ["model:" + ",".join(bad)], "replay": cex, "first_line": 0})
+            else:
+                res.notes.append("model config %s violates %s (reported by that property's check)" % (cfg, bad))
+    return res
+
+
+def engine_sim(prop, tier, seed, work):
+    """behaviours of LoopCore (TLC simulation mode) replayed on the real crate: the recorded trace is validated by the
+    contract monitor and compared, event by event, with what the model predicted"""
+    import model_scn
+    res = Result()
+    n = 30 if tier == "quick" else 600
+    for name in MODEL_CFGS[prop]:
+        cfg = "mc/sim_%s.cfg" % name
+        meta = os.path.join(work, "simmeta_" + name)
+        cmd = ["tlc", "-workers", "4", "-simulate", "num=%d" % n, "-depth", "250", "-seed", str(seed), "-metadir", meta,
+               "-cleanup", "-noGenerateSpecTE", "-config", cfg, "MCLoopCore.tla"]
+        p = sh(cmd, cwd=SPEC, env=tlc_env(), timeout=600, check=False)
+        shutil.rmtree(meta, ignore_errors=True)
+        if "Error:" in p.stdout and "is violated" in p.stdout:
+            cex = "%s/replays/%s_sim_%s.txt" % (ROOT, prop, name)
+            os.makedirs(ROOT + "/replays", exist_ok=True)
+            open(cex, "w").write(p.stdout[-200000:])
+            bad = re.findall(r"Invariant (\w+) is violated", p.stdout)
+            if ("Inv_" + prop) in bad:
+                res.viol.append({"prop": prop, "scn": "model-sim:" + cfg, "clauses": ["model:" + ",".join(bad)], "replay": cex, "first_line": 0})
+        seen, scns, preds = set(), [], {}
+        for hist in model_scn.parse_hist_lines(p.stdout):
+            key = hashlib.md5(json.dumps(hist, sort_keys=True).encode()).hexdigest()
+            if key in seen:
+                continue
+            seen.add(key)
+            sid = "m_%s_%d" % (name, len(scns))
+            scns.append(model_scn.hist_to_scenario(hist, sid))
+            preds[sid] = hist
+        if not scns:
+            raise ToolError("no behaviour extracted from TLC simulation of %s:\n%s" % (cfg, p.stdout[-2000:]))
+        m = re.search(r"The number of states generated: (\d+)", p.stdout)
+        if m:
+            res.transitions += int(m.group(1))
+            res.states += int(m.group(1))
+        res.cmds.append("tlc -simulate num=%d -config %s MCLoopCore.tla | model_scn -> drive_core -> LoopTrace" % (n, cfg))
+        r = run_core(prop, scns, work, "sim_" + name)
+        res.merge(r)
+        # conformance: predicted events vs. recorded events
+        real = collections.OrderedDict()
+        cur = None
+        for line in open(os.path.join(work, "sim_" + name + "_trace.ndjson")):
+            ev = json.loads(line)
+            if ev["e"] == "reset":
+                cur = ev["id"]
+                real[cur] = []
+            if cur:
+                real[cur].append(ev)
+        same = order = div = 0
+        for sid, hist in preds.items():
+            verdict, idx, detail = model_scn.compare(hist, real.get(sid, []))
+            if verdict == "same":
+                same += 1
+            elif verdict == "order":
+                order += 1
+            else:
+                div += 1
+                if div <= 3:
+                    res.notes.append("DRIFT %s at projected event %d: model %s / real %s" % (sid, idx, detail[0], detail[1]))
+        res.notes.append("model conformance (%s): %d behaviours reproduced event-for-event, %d differ only in kernel batch order, %d diverge" % (name, same, order, div))
+        res.conform = getattr(res, "conform", [0, 0, 0])
+        res.conform = [res.conform[0] + same, res.conform[1] + order, res.conform[2] + div]
+        if div:
+            print("DRIFT: %d of %d model behaviours (%s) are not reproduced event-for-event by the implementation" % (div, len(preds), name))
+    return res
+
+
 # ------------------------------------------------------------------------------------------- evidence
 def write_evidence(prop, tier, seed, res, level, extra_assumptions=None):
     os.makedirs(ROOT + "/evidence", exist_ok=True)
@@ -289,6 +399,7 @@ def write_evidence(prop, tier, seed, res, level, extra_assumptions=None):
         "notes": res.notes[:20],
         "known_findings_hit": res.known_hits,
         "scenarios_outside_contract": res.misuse,
+        "model_behaviours_replayed": {"event_for_event": res.conform[0], "batch_order_differs": res.conform[1], "diverged": res.conform[2]},
     }
     ev = {
         "property_id": prop, "tier": tier, "seed": seed, "level": level, "coverage": cov,
@@ -304,7 +415,7 @@ def write_evidence(prop, tier, seed, res, level, extra_assumptions=None):
 
 ENGINES = {}
 for _p in CORE_CLASSES:
-    ENGINES.setdefault(_p, []).append(engine_core)
+    ENGINES.setdefault(_p, []).extend([engine_model, engine_sim, engine_core])
 
 
 def apply_known(prop, res):
